@@ -24,7 +24,7 @@ CHECKS = {
          'DESIGN.md 4/C03'),
  'C04': ('exploration', 1200, 7200,
          'deterministic simulation: real diffusion models under seeded profile/mesh/boundary-condition/temperature/solve-call schedules with a flux tap, an iterator wrapper and a pre-clip state tap; flux-balance ledger per step',
-         'Every step of every run: mesh-sum change vs dt * sum_s w_s (J_left - J_right)/dz from the tapped boundary fluxes, boundary flux per condition type, fixed-composition nodes bitwise constant across steps and solve calls, bounds, call seams, recorded history; cumulative drift of closed systems over all calls.',
+         'Every step of every run: mesh-sum change vs dt * sum_s w_s (J_left - J_right)/dz from the tapped boundary fluxes, boundary flux per condition type, fixed-composition nodes hold the prescribed value and stay bitwise constant across steps and solve calls, a quarter of the synthetic runs preceded by another model with the same element names (cross-instance history), bounds, call seams, recorded history; cumulative drift of closed systems over all calls.',
          'Clip steps exempt (counted); runs ended by the model\'s own validation or a backend exception are checked up to that point (crash freedom is not C04). Synthetic-provider runs say nothing about kawin.thermo.',
          'DESIGN.md 4/C04'),
  'C05': ('exploration', 900, 3600,
@@ -49,22 +49,22 @@ CHECKS = {
          'DESIGN.md 4/C08'),
  'C09': ('exploration', 1500, 7200,
          'deterministic simulation of query histories on real thermodynamics objects with cache drops as faults: warm object vs fresh twin per query, immediate repetition, batched vs single, argument immutability; HashTable op machine against an exact-integer reference table; diffusion runs with the cache off/on in situ',
-         'Every query of every seeded history (Al-Zr binary, Ni-Cr-Al ternary; four driving-force methods; interfacial composition, curvature, growth, impingement, diffusivities; T jumps up to 300 K, jumps across the solvus, removeCache either way, interleaved clearCache) is compared with a cold twin; HashTable soundness and switch-off checked op by op and in running diffusion models.',
-         'Real databases only (the stub backend is irrelevant here). Tolerance 1e-7 relative. Known finding: warm start on the ordered FCC_L12 precipitate after a large jump.',
+         'Every query of every seeded history (Al-Zr binary, Ni-Cr-Al ternary, Fe-Cr-Ni per-phase diffusivities; four driving-force methods; interfacial composition, curvature, growth, impingement, diffusivities; T jumps up to 300 K, jumps across the solvus, removeCache either way, interleaved clearCache) is compared with a cold twin; HashTable soundness and switch-off checked op by op and in running diffusion models.',
+         'Real databases only (the stub backend is irrelevant here). Tolerance 1e-7 relative (energies 1e-6 + 1e-4 J/mol, curvature-method driving force 3e-5, diffusivities 1e-6 of the largest entry). Known finding: warm start on the ordered FCC_L12 precipitate after a large jump.',
          'DESIGN.md 4/C09'),
  'C11': ('exploration', 1500, 7200,
          'differential deterministic simulation: worlds built from one record that differ only in the order of the phase list (all permutations) or of the solute elements, stepped and compared step by step with a local-jump rule',
-         'Phase order: every permutation of 2-3 phases of stub ternary worlds (real Al-Mg-Si in the thorough tier) compared over the whole history (time grid and permuted per-phase histories). Element order: six query kinds of the real Ni-Cr-Al database at seeded points compared as permuted images; paired diffusion runs with permuted element lists.',
+         'Phase order: every permutation of 2-3 phases of stub ternary worlds (real Al-Mg-Si in the thorough tier) compared over the whole history (time grid and permuted per-phase histories). Element order: six query kinds of the real Ni-Cr-Al database at seeded points compared as permuted images; paired diffusion runs with permuted element lists (synthetic, real Ni-Cr-Al, real two-phase Fe-Cr-Ni homogenization); the homogenization mobility provider on Fe-Cr-Ni in both orders with a composition cache per order.',
          'Equality judged locally (d_n <= 1e-6 and no jump from < 1e-12 to > 1e-9) because summation order legitimately changes rounding; element-order comparisons use cold caches.',
          'DESIGN.md 4/C11'),
  'C13': ('exploration', 1500, 7200,
          'deterministic simulation: non-isothermal precipitation worlds executed as pairs (constructor vs setter, break points vs function) and compared bitwise; recorded temperature vs independent schedule evaluation; tap on the binary lookup-table builder for the staleness bound',
-         'Every step: recorded temperature equals the schedule; every run: the paired equivalent specification gives a bitwise identical history and the same isothermal flag; binary runs: table staleness <= maxTempChange after every step and recorded solvus inside the bracket, heating and cooling, fast and slow ramps.',
+         'Every step: recorded temperature equals the schedule; every run: the paired equivalent specification gives a bitwise identical history and the same isothermal flag; binary runs: table staleness <= maxTempChange after every step and recorded solvus inside the bracket, heating and cooling, fast and slow ramps; reschedule histories (schedule of a live model replaced between solve calls: temperature, isothermal flag and the incubation formula evaluated follow the schedule in force); sibling histories (another model configured before the first solve).',
          'Schedules are seeded samples (2-5 break points); real-backend pairs start both variants from a cleared thermodynamics cache (C09 effects excluded).',
          'DESIGN.md 4/C13'),
  'C12': ('exploration', 1200, 7200,
          'deterministic simulation: real KWN model under seeded schedules with a growth-sign monitor at every accepted step (growth, class boundaries and critical radius read at the same instant); static thermodynamic relations evaluated at states a real Al-Zr trajectory visits',
-         'In-run clause checked at every step of every run (stub and real backends, binary and multicomponent, all site types/shapes); static clauses (dG(x_alpha(g)) = g, monotonicity, sentinel monotonicity, sign change at the solvus, agreement of the four methods) at visited states of real Al-Zr runs.',
+         'In-run clause checked at every step of every run (stub and real backends, binary and multicomponent, all site types/shapes); static clauses (dG(x_alpha(g)) = g, monotonicity, sentinel monotonicity, sign change at the solvus, agreement of the four methods) at visited states of real Al-Zr runs and at seeded states of Al-Cr / AL13CR2 (formula unit != mole of atoms).',
          'Static clauses are input sampling along trajectories, not a sweep. Band around R* excluded (stub 1e-6; real 2% + offset). Known finding: curvature driving-force method at large supersaturation.',
          'DESIGN.md 4/C12'),
  'C14': ('exploration', 1200, 7200,
